@@ -90,6 +90,14 @@ def to_formula(e, pol=True):
         c = to_formula(e.test, True)
         f = f_or(f_and(c, to_formula(e.body, True)), f_and(f_not(c), to_formula(e.orelse, True)))
         return f if pol else f_not(f)
+    if isinstance(e, ast.Compare):
+        ab = _first_abs(e)
+        if ab is not None:
+            # |x| compared with something: split on the sign of x (abs(x) == x if x >= 0 else -x)
+            x = ab.args[0]
+            sel = ast.IfExp(test=ast.Compare(left=x, ops=[ast.GtE()], comparators=[ast.Constant(0)]),
+                            body=x, orelse=ast.UnaryOp(op=ast.USub(), operand=x))
+            return to_formula(_replace_node(e, ab, sel), pol)
     inner = _first_ifexp(e)
     if inner is not None:
         # lift a conditional sub-expression:  P[a if c else b]  ==  (c and P[a]) or (not c and P[b])
@@ -100,6 +108,18 @@ def to_formula(e, pol=True):
         f = f_or(f_and(c, fa), f_and(f_not(c), fb))
         return f if pol else f_not(f)
     return ('lit', e, pol)
+
+
+def _first_abs(e):
+    todo = [e]
+    while todo:
+        n = todo.pop(0)
+        if isinstance(n, (ast.Lambda, ast.IfExp)):
+            continue
+        if isinstance(n, ast.Call) and isinstance(n.func, ast.Name) and n.func.id == 'abs' and len(n.args) == 1 and not n.keywords:
+            return n
+        todo.extend(ast.iter_child_nodes(n))
+    return None
 
 
 def _first_ifexp(e):
